@@ -16,6 +16,7 @@ import QV.Lemmas.Basic
 import QV.Lemmas.Hilbert
 
 namespace QV
+namespace C10L
 open Finset Metrics
 
 /-- a real pair as a complex number -/
@@ -146,13 +147,6 @@ theorem rotateRhoProbs_smul (n : ℕ) (us : Fin n → M2 ℝ) (rot : Fin n → B
   · simp
 
 /-! ### `_convert_basis_element_to_index` inverts the rows of the generated Hilbert space -/
-
-theorem basisIndexL_lt (l : List Bool) : basisIndexL l < 2 ^ l.length := by
-  induction l with
-  | nil => simp [basisIndexL]
-  | cons b rest ih =>
-    simp only [basisIndexL, List.length_cons, pow_succ]
-    split_ifs <;> omega
 
 theorem testBit_basisIndexL (l : List Bool) :
     ∀ (i : ℕ) (hi : i < l.length), Nat.testBit (basisIndexL l) (l.length - 1 - i) = l[i] := by
@@ -347,4 +341,5 @@ theorem ex_rot_psi (k : ℕ) (hk : k < 2) :
   simp [Unitaries.rotatePsi, Unitaries.kronMult, Fin.foldr_succ, Fin.foldr_zero, Unitaries.stage, usOf, exDict, exPsi,
     Metrics.row, spaceBit, C.add, C.mul, normSq_toC] <;> norm_num
 
+end C10L
 end QV
